@@ -249,6 +249,24 @@ func C03(c *Ctx) error {
 					}
 					real[g] = rt
 				}
+				// the TS server reads each path variable from a FIXED segment of the request path: that segment is where the
+				// variable's placeholder stands in the published template — not where a literal of the same spelling stands
+				if ts, ok := tabs["ts-server"][key]; ok && len(ts.SegIndex) > 0 {
+					segs := strings.Split(ts.Template, "/")
+					for _, v := range ts.PathVars {
+						want := -1
+						for si, sg := range segs {
+							if sg == "{"+v+"}" {
+								want = si
+								break
+							}
+						}
+						if got, ok := ts.SegIndex[v]; ok && want >= 0 && got != want {
+							res.Violation("ts_server_segment_index", fmt.Sprintf("%s: the TS server reads {%s} from segment %d of the path; in its published template %q the placeholder is segment %d (%q stands at %d)", key, v, got, ts.Template, want, segs[min(got, len(segs)-1)], got),
+								map[string]any{"schema": j.req, "rpc": key, "template": ts.Template, "variable": v, "read_from": got, "placeholder_at": want})
+						}
+					}
+				}
 				// ---- correspondence: real == Impl for each generator ----
 				implAgrees := false
 				var implRoutes map[string]routes.Route
